@@ -1,5 +1,5 @@
 (* GENERATED on every run by harness/C08.py translate() with translate/pyexpr2coq_ext.py from
-   /tmp/mt-3643-747/psiaudio/stim.py - do not edit.  sens = calibration.get_sens(frequency of the component);
+   /repo/psiaudio/stim.py - do not edit.  sens = calibration.get_sens(frequency of the component);
    msf = calibration.get_mean_sf(...); i = np.arange(samples); u = uniform deviate; w = filtered waveform. *)
 From Coq Require Import Reals.
 From PV Require Import Calib.RBase gen.CalibGen.
